@@ -47,8 +47,9 @@ def run_case(case, prefix):
     cuts = [tuple(c) for c in case.get("cuts", [])]
     w = H.World(variant=variant, edge=case.get("edge", False), corrupt=corrupt, passive=case.get("passive", False),
                 burst=burst, with_success=True)
+    import os as _os
     sc = S.Scheduler(prefix, trace_filter=H.trace_filter,
-                     line_filter=H.line_filter if case.get("lines") else None)
+                     line_filter=H.line_filter if (case.get("lines") or _os.environ.get("C04_LINES")) else None)
     final_conn = 0 if hist in ("fresh", "close-after-end") else 1
     sent = [H.out_stanza(k) for k in range(nsend)]
     obs = {}
@@ -260,6 +261,10 @@ def run_case(case, prefix):
             bad("failure-event-missing", "handshake_failed event did not reach the top")
         if any(b[0].startswith("WANoise") for b in blocked):
             bad("failure-worker-hangs", "handshake worker still blocked after a failed handshake", blocked)
+    # a handshake worker of a connection that was cut must not stay parked for ever
+    stale = [b for b in blocked if b[0].startswith("WANoise")]
+    if stale and not corrupt and "app" not in blocked_names:
+        bad("stale-worker-blocked", "a handshake worker is still blocked although the session it belongs to is gone or complete: %s" % stale, blocked)
     # generic: nobody may sit on a layer lock at quiescence
     held = [k for k, x in w.locks().items() if x]
     if held:
@@ -316,9 +321,25 @@ def run(ctx):
     p2 = run_case(cases[0], (0, {}))
     if p1 != p2:
         raise RuntimeError("nondeterministic replay of the default schedule")
+    st_lines = None
+    if not ctx.quick and not ctx.violations:
+        # line-granularity scheduling points inside layers/__init__.py, noise/layer.py and the segments layer
+        # (races between two statements that involve no call), on the cut-off histories, at bound 1
+        lc = []
+        for c in cases:
+            if c.get("history") in ("close-before-hello", "close-mid-hello", "close-after-hello") and not c.get("cuts") and not c.get("edge"):
+                d = dict(c)
+                d["lines"] = True
+                lc.append(d)
+        st_lines = dfs.explore(ctx, MOD, "run_case", lc, 1, cap=cap, chunksize=8, free_bound=1)
+        ctx.note("line-level points: cases=%d executions=%d capped=%s" % (len(lc), st_lines.executions, st_lines.capped))
+        st.executions += st_lines.executions
+        st.points += st_lines.points
+        st.capped = st.capped or st_lines.capped
     for c in cases[:3]:
         ctx.sample(c)
     ctx.coverage.update({
+        "line_level_executions": st_lines.executions if st_lines else 0,
         "states": st.points,
         "transitions": st.points,
         "traces_validated_against_impl": st.executions,
